@@ -107,7 +107,7 @@ MUTANTS = [
  dict(id="C14", name="float_undo_cast_to_int", edits=[(PS, "data.loc, (decltype(var))(getcode), var); setcode;", "data.loc, static_cast<int>(getcode), var); setcode;")]),
  dict(id="C15", name="e2e_float_undo_cast_to_int", edits=[(PS, "data.loc, (decltype(var))(getcode), var); setcode;", "data.loc, static_cast<int>(getcode), var); setcode;")]),
  dict(id="C14", name="min_clamp_sets_max", edits=[(PS, "        var = (decltype(var)) convert(prop[\"min\"]);\\", "        var = (decltype(var)) convert(prop[\"max\"]);\\")]),
- dict(id="C14", name="max_clamp_missing", edits=[(PS, "    if(prop[\"max\"] && var > (decltype(var)) convert(prop[\"max\"])) \\", "    if(0 && prop[\"max\"] && var > (decltype(var)) convert(prop[\"max\"])) \\")]),
+ dict(id="C14", name="max_clamp_missing", edits=[(PS, "    if(prop[\"max\"] && var > convert(prop[\"max\"])) \\", "    if(0 && prop[\"max\"] && var > (decltype(var)) convert(prop[\"max\"])) \\")]),
  dict(id="C14", name="undo_event_when_unchanged", edits=[(PS, "#define rCAPPLY(getcode, t, setcode) if((decltype(var))(getcode) != var) data.reply", "#define rCAPPLY(getcode, t, setcode) if(1) data.reply")]),
  dict(id="C14", name="undo_old_new_swapped", edits=[(PS, "data.loc, (decltype(var))(getcode), var); setcode;", "data.loc, var, (decltype(var))(getcode)); setcode;")]),
  dict(id="C14", name="float_bounds_parsed_as_int", edits=[(PS, """            rTYPE(name) var = rtosc_argument(msg, 0).f; \\
@@ -226,7 +226,7 @@ MUTANTS = [
  dict(id="C13", name="directory_lookup_without_slash", edits=[(SF, "        const Port* port = ports.apropos(is_leaf_level\n                                         ? cur_portname.c_str()\n                                         : (cur_portname + '/').c_str());", "        const Port* port = ports.apropos(cur_portname.c_str());")]),
  # ---- mirrors of what round-5 independent changes needed
  dict(id="C14", name="int_array_local_is_a_char", edits=[(PS, "            auto var = obj->name[idx]; \\\n            var = rtosc_argument(msg, 0).i; \\\n", "            char var = rtosc_argument(msg, 0).i; \\\n")]),
- dict(id="C14", name="clamp_needs_both_bounds", edits=[(PS, "    if(prop[\"min\"] && var < (decltype(var)) convert(prop[\"min\"])) \\\n", "    if(prop[\"min\"] && prop[\"max\"] && var < (decltype(var)) convert(prop[\"min\"])) \\\n")]),
+ dict(id="C14", name="clamp_needs_both_bounds", edits=[(PS, "    if(prop[\"min\"] && var < convert(prop[\"min\"])) \\\n", "    if(prop[\"min\"] && prop[\"max\"] && var < convert(prop[\"min\"])) \\\n")]),
  dict(id="C14", name="option_symbol_matched_by_prefix", edits=[(PC, "    if(!strcmp(m.value, value))\n    {\n        result = atoi(m.title+4);", "    if(!strncmp(m.value, value, strlen(m.value)))\n    {\n        result = atoi(m.title+4);")]),
  dict(id="C03", name="wide_variadic_message_on_the_heap", edits=[(RC, "    STACKALLOC(rtosc_arg_t, args, nargs);\n    rtosc_va_list_t ap2;\n    va_copy(ap2.a, ap);\n    rtosc_v2args(args, nargs, arguments, &ap2);", "    rtosc_arg_t args_fixed[32];\n    rtosc_arg_t *args = nargs > 32 ? (rtosc_arg_t*)malloc(nargs*sizeof(rtosc_arg_t)) : args_fixed;\n    rtosc_va_list_t ap2;\n    va_copy(ap2.a, ap);\n    rtosc_v2args(args, nargs, arguments, &ap2);\n    if(nargs > 32) { size_t r_ = rtosc_amessage(buffer,len,address,arguments,args); free(args); return r_; }")]),
  dict(id="C12", name="toggle_arrays_of_mixed_first_type_differ", edits=[("src/cpp/arg-val-cmp.c", "               && !(rtosc_av_arr_type(_lhs) == 'F' && rtosc_av_arr_type(_rhs) == 'T'))\n", "               && !(rtosc_av_arr_type(_lhs) == 'F' && rtosc_av_arr_type(_lhs) == 'T'))\n")]),
@@ -258,4 +258,5 @@ MUTANTS = [
  dict(id="C12", name="hashed_guess_verified_by_prefix", edits=[(PC, "               msg[fixed[i].length()])\n                return false;", "               msg[fixed[i].length()] && false)\n                return false;")]),
  dict(id="C03", name="callbackless_port_called", edits=[(PC, "d.port = &port, (port.cb ? port.cb(m,d) : (void)0), d.obj = obj;", "d.port = &port, port.cb(m,d), d.obj = obj;")]),
  dict(id="C15", name="merged_event_in_a_buffer_of_the_new_events_size", edits=[(UH, "            const size_t N = rtosc_amessage(NULL, 0, msg, types, args);\n", "            const size_t N = rtosc_message_length(msg, -1);\n")]),
+ dict(id="C14", name="bound_narrowed_before_comparison", edits=[(PS, "    if(prop[\"max\"] && var > convert(prop[\"max\"])) \\\n", "    if(prop[\"max\"] && var > (decltype(var)) convert(prop[\"max\"])) \\\n")]),
 ]
